@@ -233,8 +233,23 @@ class FacetBasis(AbstractBasis):
         """
         from skfem.utils import solve, condense
 
+        if facets is not None:
+            # integrate over the given facets only
+            facets = self.mesh.normalize_facets(facets)
+            # positions of the facets in this basis
+            ix = np.zeros(self.mesh.nfacets, dtype=np.int64)
+            ix[self.find] = np.arange(len(self.find))
+            fbasis = type(self)(
+                self.mesh,
+                self.elem,
+                mapping=self.mapping,
+                quadrature=self.quadrature,
+                facets=facets,
+                side=self.side,
+            )
+            return fbasis.project(self._restrict_interp(interp, ix[facets]),
+                                  dtype=dtype)
+
         M, f = self._projection(interp, dtype=dtype)
 
-        if facets is not None:
-            return solve(*condense(M, f, I=self.get_dofs(facets=facets)))
         return solve(*condense(M, f, I=self.get_dofs(facets=self.find)))
